@@ -81,6 +81,16 @@ def plan(tier, seed):
                 shards.append(("pts", n, ci, 1))
     for a, b in E.chunks(720, 60):
         shards.append(("strict4", a, b))
+    # the same point sets at a tiny scale (squared distances ~1e-22): only the three identifiers
+    # whose transforms stay exactly monotone in floating point are compared there
+    for n in (3, 4):
+        for ci, comb in enumerate(itertools.combinations(range(7), n)):
+            shards.append(("pts", n, ci, 2))
+    # each identifier must be a non-decreasing function of the Euclidean distance over a fine
+    # multiplicative ladder of distances (ratio 1.0001, 1e-9 .. 1e9)
+    for mt in FAMILY:
+        for part in range(8):
+            shards.append(("ladder", mt, part))
     shards.sort(key=lambda s: -(s[1] if s[0] == "pts" else 4))
     return shards
 
@@ -92,7 +102,11 @@ def groups(shard, seed, tier="quick"):
     """yields (base program, list of variant programs)"""
     if shard[0] == "pts":
         _, n, ci, which = shard
-        pts, qs = pool(seed, which)
+        tiny = which == 2
+        pts, qs = pool(seed, 0 if tiny else which)
+        if tiny:
+            pts = [(x * 1e-11, y * 1e-11) for x, y in pts]
+            qs = [(x * 1e-11, y * 1e-11) for x, y in qs]
         comb = list(itertools.combinations(range(7), n))[ci]
         P = [pts[i] for i in comb]
         ds = [sq(a, b) for a, b in itertools.combinations(P, 2)]
@@ -101,13 +115,16 @@ def groups(shard, seed, tier="quick"):
         Q = [q for q in qs if len(set(ds + [sq(a, q) for a in P])) == len(ds) + n
              and all(sq(a, q) != 0 for a in P)]
         full = FAMILY if tier == "thorough" else [FAMILY[0], FAMILY[-1]]
+        fam = FAMILY
+        if tiny:
+            fam = full = FAMILY[:3]      # euclidean, squared_euclidean, average_euclidean
         for lab in E.labelings(n):
             lab = E.rename_classes(lab, seed)
             base = {"mode": "features", "P": [list(p) for p in P], "labels": list(lab),
                     "queries": [list(q) for q in Q], "perm": list(range(n)), "metric": FAMILY[0]}
             variants = []
             for perm in itertools.permutations(range(n)):
-                for mt in FAMILY:
+                for mt in fam:
                     if perm == tuple(range(n)) and mt == FAMILY[0]:
                         continue
                     if perm != tuple(range(n)) and mt not in full:
@@ -228,10 +245,63 @@ def viol(base, v, prob, sym):
             "fingerprint": "SupervisedOPF order/rescale invariance: " + sym}
 
 
+def ladder_case(prog):
+    import opfython.math.distance as D
+    fn = D.DISTANCES[prog["metric"]]
+    d1, d2 = prog["d1"], prog["d2"]
+    dim = prog.get("dim", 1)
+    z = np.zeros(dim)
+    a = float(fn(z.copy(), np.full(dim, d1 / dim ** 0.5)))
+    b = float(fn(z.copy(), np.full(dim, d2 / dim ** 0.5)))
+    if not (b >= a) or a != a or b != b:
+        return viol(prog, prog, "%s is not a non-decreasing function of the Euclidean distance: at distance "
+                    "%r it is %r, at the larger distance %r it is %r" % (prog["metric"], d1, a, d2, b),
+                    "metric not monotone in the Euclidean distance")
+    return None
+
+
+def run_ladder(shard, seed, res):
+    import math
+    _, metric, part = shard
+    ratio = 1.0001
+    lo, hi = 1e-9, 1e9
+    total = int(math.log(hi / lo) / math.log(ratio))
+    per = total // 8 + 1
+    start = lo * ratio ** (part * per) * (1.0 + 0.37e-4 * (seed % 3))
+    import opfython.math.distance as D
+    fn = D.DISTANCES[metric]
+    z = np.zeros(1)
+    prev_d, prev_v = None, None
+    d = start
+    x = np.zeros(1)
+    for i in range(per + 1):
+        x[0] = d
+        v = float(fn(z, x))
+        res.transitions += 1
+        if prev_v is not None:
+            res.evaluations += 1
+            res.traces += 1
+            res.nontrivial += 1
+            if not (v >= prev_v):
+                vv = ladder_case({"kind": "ladder", "metric": metric, "d1": prev_d, "d2": d})
+                if vv:
+                    res.violations.append(vv)
+                    if res.full:
+                        break
+        prev_d, prev_v = d, v
+        d *= ratio
+    res.states += per
+    res.outcome((metric, part))
+    res.sample({"kind": "ladder", "metric": metric, "d1": start, "d2": start * ratio}, 1)
+    return res
+
+
 def run(shard, seed):
     import os
     tier = os.environ.get("_C11_TIER", "quick")
     res = Result()
+    if shard[0] == "ladder":
+        return run_ladder(shard, seed, res)
     first = True
     for base, variants in groups(shard, seed, tier):
         try:
@@ -277,5 +347,7 @@ def plan(tier, seed):  # noqa: F811  (records the tier for the workers, which fo
 
 def replay(case):
     p = case["program"]
+    if "base" in p and isinstance(p["base"], dict) and p["base"].get("kind") == "ladder":
+        return ladder_case(p["base"])
     bres = execute(p["base"])
     return compare(p["base"], bres, p["variant"])
